@@ -12,7 +12,7 @@ The contract engine decides each *existing* specified function. These rules clos
 """
 import ast
 
-from .frontend import dotted
+from .frontend import dotted, AnalysisError
 from .obligation import Ob
 from . import terms as T
 
@@ -93,6 +93,22 @@ def obligations(ctx, pid):
             elif isinstance(n, ast.Call) and dotted(n.func) in ("operator.attrgetter", "operator.methodcaller") and n.args \
                     and isinstance(n.args[0], ast.Constant) and isinstance(n.args[0].value, str):
                 read_names0.update(n.args[0].value.split("."))
+    # ---- functions decided by a dedicated analysis of their body (no whole-function contract): what wraps the body counts too
+    try:
+        protected = list(getattr(_props.get(pid), "PROTECTED", []))
+    except Exception:
+        protected = []
+    for q in protected:
+        fi = P.functions.get(q)
+        if fi is None:
+            raise AnalysisError(f"protected function {q} not found")
+        decs = [ast.unparse(d) for d in fi.node.decorator_list]
+        if decs:
+            obs.append(Ob(f"E0.decorator:{q}", "E0.decorator", fi.loc(), "violation",
+                          f"{q} is wrapped by decorator(s) {decs}: the analysis of its body no longer describes what a call does "
+                          f"(caching / wrapping changes results across calls or inputs)", key=f"E0.decorator:{q}:{','.join(decs)}"))
+        else:
+            obs.append(Ob(f"E0.decorator:{q}", "E0.decorator", fi.loc(), "ok", "no decorator wraps the analysed body"))
     # ---- overrides of specified methods that no reference covers
     n_checked = 0
     for q in sorted(specified):
